@@ -63,6 +63,26 @@ CLAIMED["C04"] = (_API, _APITXT + "Clauses: oracle-balanced input => solved, inp
                   "oracle-balanced input and nothing added.", "5/C04", "")
 CLAIMED["C18"] = (_API, _APITXT + "Clauses: the eight count relations between the stats dictionary of each call and its rows.", "5/C18", "")
 
+CLAIMED["C13"] = (
+    "TLA+ stage machine (Pipeline.tla, Confidence action) checked by TLC for all (confidence, threshold) pairs; "
+    "families of real runs under many thresholds validated by TLC trace specification (Threshold_Trace.tla)",
+    "TLC checks the boundary (>= including equality), independence of the other rows and the demotion issue on the "
+    "pipeline model (the strict-comparison mutant must fail). The same inputs are then run for real at threshold 0 "
+    "and at every observed confidence value, its 3-decimal rendering and its neighbours one thousandth above and "
+    "below, plus 0.5 / 0.999 / 1; TLC compares every row of every run with the threshold-0 reference: confidence and "
+    "reaction independent of t, solved iff c >= t (exact comparison of the reported float with the threshold "
+    "passed), issue names t, all other rows identical, monotone.",
+    "5/C13", "")
+CLAIMED["C06"] = (
+    "TLA+ model of the id/index plumbing (Plumbing.tla) checked exhaustively by TLC; real runs of the same multiset "
+    "in different orders / partitions / worker counts validated against solo runs by TLC (Context_Trace.tla)",
+    "TLC checks the attribution invariant of the result routing (id map, skipped positions, positional fragment "
+    "analysis) for every batch composition within the bound; the positional-zip mutant must fail. Every reaction is "
+    "first processed alone by the real code (reference row and statistics), then the same reactions are run in "
+    "seeded permutations with batch sizes 1..n+1/None and 1..16 workers, as lists and dictionaries; TLC compares each "
+    "row field by field with the solo reference and each run's statistics with the sum of the solo statistics.",
+    "5/C06", "")
+
 PENDING_REASON = "check not built yet in this round (planned, see DESIGN.md section 5); not claimed until it passes on the unchanged tree"
 
 
